@@ -47,7 +47,7 @@ spec fn decide_post<'a>(name: Name, e: Option<&'a Evaluated>, i: Option<&'a Inst
     }
 }
 
-//@extract id=compare_decide file=junos-agent/src/policies/compare.rs impl=/impl Policies<Evaluated>/ fn=compare expr=/match \(self\.map\.get\(name\), installed\.map\.get\(name\)\)/ rules=R1
+//@extract id=compare_decide file=junos-agent/src/policies/compare.rs impl=/impl Policies<Evaluated>/ fn=compare expr=/match \(self\.map\.get\(name\), installed\.map\.get\(name\)\)/ rules=R1,R7,R17 r7map=option
 //@+ sub=/(self.map.get(name), installed.map.get(name))=>(e, i)/
 //@sig fn decide<'a>(name: &Name, e: Option<&'a Evaluated>, i: Option<&'a Installed>) -> (res: Option<Update<'a>>)
 //@contract
@@ -123,7 +123,7 @@ spec fn all_explained<'a>(ev: Map<u64, Evaluated>, inst: Map<u64, Installed>, ou
 }
 
 impl Policies<Evaluated> {
-//@extract id=policies_compare file=junos-agent/src/policies/compare.rs impl=/impl Policies<Evaluated>/ fn=compare rules=R1,R17
+//@extract id=policies_compare file=junos-agent/src/policies/compare.rs impl=/impl Policies<Evaluated>/ fn=compare rules=R1,R7,R17 r7map=option
 //@+ sub=/.collect::<HashSet<_>>()=>.collect_set()/
 //@sig fn compare<'a>(&'a self, installed: &'a Policies<Installed>) -> (res: Updates<'a>)
 //@contract
